@@ -1,12 +1,23 @@
 import GoLevel.Driver.Key
 import GoLevel.Model.Conc
+import GoLevel.Model.ConcSnaps
 /-!
 Trace validation for the interleaving model (`conc …` lines): the synchronisation events recorded by
 the verif hooks of a concurrent run (group insertion, publication, buffer rotation, flush install, frozen
-drop, compaction commit, transaction open/install/publish/discard) are replayed through the executable
+drop, compaction commit, transaction open/install/publish/discard, **and the reader side**: snapshot
+acquisition / release, `getMems`, `version()`, the answer of the read) are replayed through the executable
 `Conc.step Cfg.real`; every recorded event must be an enabled step of the system the C05/C03/C11 theorems
-quantify over.  Entry contents do not matter for enabledness, so synthetic entries with the recorded
-sequence numbers are used.
+quantify over, and every recorded answer of a `Get` must be the answer of the model's `rLookup` at the reader's
+(sequence number, buffers, version) triple.  The real snapshot list (`Model/Snaps.lean`) is driven by the same
+events (`Conc.snapsStep`).
+
+Every line is turned into a `Plan` (checks before, a list of model steps, checks after) that `exec` runs: the
+state only ever changes by `Conc.step` (`Proofs/ConcDriver.lean`: the state of the driver is always a reachable
+state of the model, paired with its snapshot list).
+
+Entries: `insert <seq> <n>` uses synthetic entries (enabledness does not depend on the contents);
+`insert <seq> <n> <e_1> … <e_n>` with `e_i = p<keyhex>:<valuehex>` (a put) or `d<keyhex>` (a deletion) carries
+the user keys and (an identifier of) the values, so that reads can be compared.
 -/
 namespace GoLevel.Driver
 open GoLevel GoLevel.Conc
@@ -14,92 +25,263 @@ open GoLevel GoLevel.Conc
 structure ConcState where
   σ : Conc.State := {}
   steps : Nat := 0
+  /-- `db.snapsList` -/
+  snl : Snaps.SList := []
+  /-- the harness' snapshot ids and the model's -/
+  sids : List (Nat × Nat) := []
+
+/-- decimal number (over the character list, so that concrete traces can be evaluated inside proofs) -/
+def natOfChars : List Char → Nat → Option Nat
+  | [], acc => some acc
+  | ch :: r, acc => if ch.isDigit then natOfChars r (acc * 10 + (ch.toNat - '0'.toNat)) else none
+
+def natOf (s : String) : Option Nat :=
+  match s.toList with
+  | [] => none
+  | cs => natOfChars cs 0
 
 def dummyEntries (seq n : Nat) : List Entry :=
   (List.range n).map fun i => ⟨mkIKey [] (seq + i) Gen.keyTypeVal, []⟩
 
+def hexOfChars (cs : List Char) : Option Bytes := if cs = ['-'] then some [] else fromHexAux cs
+
+/-- `p<keyhex>:<valuehex>` or `d<keyhex>` -/
+def parseEnt (seq : Nat) (tok : String) : Option Entry :=
+  match tok.toList with
+  | 'p' :: rest => do
+    let k ← hexOfChars (rest.takeWhile (· != ':'))
+    match rest.dropWhile (· != ':') with
+    | ':' :: v => do
+      let v ← hexOfChars v
+      pure ⟨mkIKey k seq Gen.keyTypeVal, v⟩
+    | _ => none
+  | 'd' :: rest => do
+    let k ← hexOfChars rest
+    pure ⟨mkIKey k seq Gen.keyTypeDel, []⟩
+  | _ => none
+
+def parseEnts : Nat → List String → Option (List Entry)
+  | _, [] => some []
+  | seq, t :: ts => do
+    let e ← parseEnt seq t
+    let r ← parseEnts (seq + 1) ts
+    pure (e :: r)
+
+/-- the entries of a line: recorded ones (exactly `n` of them) or synthetic ones -/
+def entriesOf (seq n : Nat) (toks : List String) : Option (List Entry) :=
+  if toks.isEmpty then some (dummyEntries seq n)
+  else if toks.length = n then parseEnts seq toks else none
+
+/-- what a line may do to the model: plain steps, or a whole table compaction that keeps every entry -/
+inductive DAct
+  | act (a : Action)
+  | compactId
+
+/-- one model step, on the state and on the snapshot list -/
 def applyAct (st : ConcState) (a : Action) : Option ConcState :=
-  (Conc.step {} bytewise st.σ a).map fun σ' => { σ := σ', steps := st.steps + 1 }
+  if a.plain = true then
+    match Conc.step Cfg.real bytewise st.σ a, Conc.snapsStep st.σ st.snl a with
+    | some σ', some l' => some { st with σ := σ', steps := st.steps + 1, snl := l' }
+    | _, _ => none
+  else none
 
-def applyActs (st : ConcState) : List Action → Option ConcState
+/-- `compStart` followed by `compCommit` of the unchanged table collection, without re-checking that every entry of
+the collection is in the collection (`Proofs/ConcDriver.lean`: `applyCompactId_steps`) -/
+def applyCompactId (st : ConcState) : Option ConcState :=
+  if st.σ.comp = none then
+    some { st with σ := { st.σ with comp := none, floor := Conc.minSeq st.σ }, steps := st.steps + 2 }
+  else none
+
+def applyD (st : ConcState) : DAct → Option ConcState
+  | .act a => applyAct st a
+  | .compactId => applyCompactId st
+
+def applyDs (st : ConcState) : List DAct → Option ConcState
   | [] => some st
-  | a :: as => (applyAct st a).bind (applyActs · as)
+  | a :: as => (applyD st a).bind (applyDs · as)
 
-def verdict (st : ConcState) (r : Option ConcState) (what : String) : ConcState × String :=
-  match r with
-  | some st' => (st', "ok")
-  | none => (st, "illegal " ++ what)
+structure Plan where
+  /-- refuse the line (state unchanged) -/
+  pre : Option String := none
+  acts : List DAct := []
+  /-- the message when a step is not enabled -/
+  fail : String := "not-enabled"
+  /-- check of the resulting state (`some` = refuse, state unchanged) -/
+  post : ConcState → Option String := fun _ => none
+  sids : List (Nat × Nat) → List (Nat × Nat) := id
 
-def handleConc (st : ConcState) : List String → Option (ConcState × String)
-  | ["reset", pub] => do
-      -- a DB opened with recovered sequence number `pub` and empty buffers
-      let p ← pub.toNat?
-      pure ({ σ := { pub := p } }, "ok")
-  | ["insert", seq, n] => do
-      let seq ← seq.toNat?; let n ← n.toNat?
+def exec (st : ConcState) (p : Plan) : ConcState × String :=
+  match p.pre with
+  | some m => (st, "illegal " ++ m)
+  | none =>
+    match applyDs st p.acts with
+    | none => (st, "illegal " ++ p.fail)
+    | some st' =>
+      match p.post st' with
+      | some m => (st, "illegal " ++ m)
+      | none => ({ st' with sids := p.sids st'.sids }, "ok")
+
+def acts (as : List Action) : List DAct := as.map DAct.act
+
+def pubIs (seq : Nat) (what : String) (st' : ConcState) : Option String :=
+  if st'.σ.pub = seq then none else some s!"{what}-{seq}-model-{st'.σ.pub}"
+
+/-- does the model's answer `v` agree with the recorded one (`found <value>` / `found *` / `notfound`)? -/
+def answerOk (ans : String) (val : Option Bytes) (v : Option Bytes) : Bool :=
+  if ans = "notfound" then v.isNone
+  else if ans = "found" then
+    match val with
+    | some b => v == some b
+    | none => v.isSome
+  else false
+
+/-- the value field of an `rget` line: `*` = any value (a `Has`), otherwise the (identifier of the) value -/
+def parseVal (vid : String) : Option (Option Bytes) :=
+  if vid = "*" then some none else (fromHex vid).map some
+
+def showAns : Option Bytes → String
+  | some b => "found-" ++ toHexField b
+  | none => "notfound"
+
+def plan (st : ConcState) : List String → Option Plan
+  | "insert" :: seq :: n :: ents => do
+      let seq ← natOf seq; let n ← natOf n
+      let es ← entriesOf seq n ents
       -- numbers consumed without entries (a group whose journal write failed, `db.addSeq` on the error
       -- path) show up as a gap before the next group: replay it as `seqSkip`
       let gap := seq - (st.σ.pub + st.σ.pending.length + 1)
-      let acts := if gap > 0 ∧ st.σ.pending = [] then [Action.seqSkip gap, .writeInsert (dummyEntries seq n)]
-                  else [.writeInsert (dummyEntries seq n)]
-      pure (verdict st (applyActs st acts) "insert-not-enabled(seq-not-consecutive-or-transaction-open)")
+      let as := if gap > 0 ∧ st.σ.pending = [] then [Action.seqSkip gap, .writeInsert es] else [.writeInsert es]
+      pure { acts := acts as, fail := "insert-not-enabled(seq-not-consecutive-or-transaction-open)" }
   | ["publish", seq] => do
-      let seq ← seq.toNat?
-      match applyAct st .publish with
-      | some st' => if st'.σ.pub = seq then pure (st', "ok") else pure (st, s!"illegal published-{seq}-model-{st'.σ.pub}")
-      | none => pure (st, "illegal publish-not-enabled")
-  | ["rotate"] => pure (verdict st (applyAct st .rotate) "rotate-not-enabled(frozen-buffer-present-or-group-pending)")
-  | ["flushinstall"] => pure (verdict st (applyAct st .flushInstall) "flush-install-not-enabled(no-frozen-buffer-or-already-installed)")
+      let seq ← natOf seq
+      pure { acts := acts [.publish], fail := "publish-not-enabled", post := pubIs seq "published" }
+  | ["rotate"] => pure { acts := acts [.rotate], fail := "rotate-not-enabled(frozen-buffer-present-or-group-pending)" }
+  | ["flushinstall"] =>
+      pure { acts := acts [.flushInstall], fail := "flush-install-not-enabled(no-frozen-buffer-or-already-installed)" }
   | ["drop"] =>
       -- an EMPTY frozen buffer is dropped without a table (`memCompaction`: "memdb@flush skipping"): in the
       -- model that is a flush install of no entries followed by the drop
       if st.σ.flushed = false ∧ Conc.frozenBuf st.σ = [] ∧ st.σ.frozen ≠ none then
-        pure (verdict st (applyActs st [.flushInstall, .flushDrop]) "empty-frozen-drop-not-enabled")
-      else pure (verdict st (applyAct st .flushDrop) "frozen-drop-before-its-table-was-installed")
+        pure { acts := acts [.flushInstall, .flushDrop], fail := "empty-frozen-drop-not-enabled" }
+      else pure { acts := acts [.flushDrop], fail := "frozen-drop-before-its-table-was-installed" }
   | ["compact", minSeq] => do
-      let m ← minSeq.toNat?
+      let m ← natOf minSeq
       -- minSeq read earlier by the real code can only be smaller than now
-      if m > Conc.minSeq st.σ then pure (st, s!"illegal compaction-minSeq-{m}-above-oldest-reader-{Conc.minSeq st.σ}")
-      else pure (verdict st (applyActs st [.compStart, .compCommit st.σ.tabs]) "compaction-not-enabled")
+      let pre :=
+        if m > Conc.minSeq st.σ then some s!"compaction-minSeq-{m}-above-oldest-reader-{Conc.minSeq st.σ}"
+        else if Snaps.minSeq st.snl st.σ.pub ≠ Conc.minSeq st.σ then
+          some s!"snapshot-list-minSeq-{Snaps.minSeq st.snl st.σ.pub}-registrations-{Conc.minSeq st.σ}"
+        else none
+      pure { pre := pre, acts := [.compactId], fail := "compaction-not-enabled" }
+  | ["minseq", m] => do
+      -- `db.minSeq()` returned the front element of a non-empty list
+      let m ← natOf m
+      let pre := match st.snl with
+        | e :: _ => if e.seq = m then none else some s!"minSeq-{m}-snapshot-list-front-{e.seq}"
+        | [] => some s!"minSeq-{m}-from-the-list-but-snapshot-list-empty"
+      pure { pre := pre }
   | ["tropen", base] => do
-      let b ← base.toNat?
+      let b ← natOf base
       -- numbers consumed without entries (a discarded transaction's range: `Transaction.discard` advances
       -- `db.seq`; a failed group) show up as a gap: replay it as `seqSkip`, as for `insert`
       let gap := b - st.σ.pub
-      let st0 := if gap > 0 ∧ st.σ.pending = [] ∧ st.σ.tr.isNone then (applyAct st (.seqSkip gap)).getD st else st
-      match applyAct st0 .trOpen with
-      | some st' => if st'.σ.pub = b then pure (st', "ok") else pure (st, s!"illegal transaction-base-{b}-model-{st'.σ.pub}")
-      | none => pure (st, "illegal transaction-open-not-enabled(write-buffer-not-empty-or-frozen-buffer-pending-or-group-pending)")
-  | ["trinstall", seq] => do
-      let seq ← seq.toNat?
+      let as := if gap > 0 ∧ st.σ.pending = [] ∧ st.σ.tr.isNone then [Action.seqSkip gap, .trOpen] else [.trOpen]
+      pure { acts := acts as,
+             fail := "transaction-open-not-enabled(write-buffer-not-empty-or-frozen-buffer-pending-or-group-pending)",
+             post := pubIs b "transaction-base" }
+  | "trinstall" :: seq :: ents => do
+      let seq ← natOf seq
       match st.σ.tr with
-      | none => pure (st, "illegal install-without-transaction")
+      | none => pure { pre := some "install-without-transaction" }
       | some t =>
-        let n := seq - t.base
-        let puts := (dummyEntries (t.base + 1) n).map Action.trPut
-        pure (verdict st (applyActs st (puts ++ [.trInstall])) "transaction-install-not-enabled")
+        let es ← entriesOf (t.base + 1) (seq - t.base) ents
+        pure { acts := acts (es.map Action.trPut ++ [.trInstall]), fail := "transaction-install-not-enabled" }
   | ["trpublish", seq] => do
-      let seq ← seq.toNat?
-      match applyAct st .trPublish with
-      | some st' => if st'.σ.pub = seq then pure (st', "ok") else pure (st, s!"illegal published-{seq}-model-{st'.σ.pub}")
-      | none => pure (st, "illegal transaction-publish-before-install")
+      let seq ← natOf seq
+      pure { acts := acts [.trPublish], fail := "transaction-publish-before-install", post := pubIs seq "published" }
   | ["trdone", seq] => do
       -- Discard of a transaction that reached sequence number `seq` (after a commit the transaction is already
       -- gone): its private records are replayed first, so that the discard skips exactly the numbers it used
-      let seq ← seq.toNat?
+      let seq ← natOf seq
       match st.σ.tr with
-      | none => pure (st, "ok")
+      | none => pure {}
       | some t =>
         let n := seq - (t.base + t.priv.length)
         let puts := (dummyEntries (t.base + t.priv.length + 1) n).map Action.trPut
-        pure (verdict st (applyActs st (puts ++ [.trDiscard])) "discard-after-install")
+        pure { acts := acts (puts ++ [.trDiscard]), fail := "discard-after-install" }
   | ["trdone"] =>
       -- Discard of a transaction that was not committed; after a commit the transaction is already gone
       match st.σ.tr with
-      | none => pure (st, "ok")
-      | some _ => pure (verdict st (applyAct st .trDiscard) "discard-after-install")
-  | ["snap"] => pure (verdict st (applyAct st .snapAcquire) "snap")
-  | ["pub?"] => pure (st, toString st.σ.pub)
+      | none => pure {}
+      | some _ => pure { acts := acts [.trDiscard], fail := "discard-after-install" }
+  | ["snap", sid, seq] => do
+      -- `DB.GetSnapshot`: `acquireSnapshot` read `seq` from `db.seq`
+      let sid ← natOf sid; let seq ← natOf seq
+      let id := st.σ.nextId
+      pure { pre := if st.σ.pub = seq then none else some s!"snapshot-seq-{seq}-is-not-db-seq-{st.σ.pub}",
+             acts := acts [.snapAcquire], sids := fun m => (sid, id) :: m }
+  | ["snaprel", sid] => do
+      let sid ← natOf sid
+      match st.sids.lookup sid with
+      | none => pure { pre := some "release-of-unknown-snapshot" }
+      | some id => pure { acts := acts [.snapRelease id], sids := fun m => m.filter (fun p => p.1 != sid) }
+  | ["racq", rid, seq] => do
+      -- `DB.Get` / `DB.Has` / `DB.NewIterator`: `acquireSnapshot` read `seq` from `db.seq` and registered it
+      let rid ← natOf rid; let seq ← natOf seq
+      let pre :=
+        if rid ≠ st.σ.readers.length then some s!"reader-id-{rid}-expected-{st.σ.readers.length}"
+        else if st.σ.pub ≠ seq then some s!"reader-seq-{seq}-is-not-db-seq-{st.σ.pub}"
+        else none
+      pure { pre := pre, acts := acts [.rNew, .rSeq rid], fail := "reader-acquire-not-enabled" }
+  | ["racqs", rid, sid, seq] => do
+      -- `Snapshot.Get` / `Snapshot.NewIterator`: the sequence number of the snapshot element, under `snap.mu`
+      let rid ← natOf rid; let sid ← natOf sid; let seq ← natOf seq
+      match st.sids.lookup sid with
+      | none => pure { pre := some "read-of-unknown-snapshot" }
+      | some id =>
+        let pre :=
+          if rid ≠ st.σ.readers.length then some s!"reader-id-{rid}-expected-{st.σ.readers.length}"
+          else if st.σ.snaps.lookup (.user id) ≠ some seq then some s!"snapshot-read-seq-{seq}-differs-from-the-snapshot"
+          else none
+        pure { pre := pre, acts := acts [.rNew, .rSeqSnap rid id], fail := "snapshot-reader-not-enabled" }
+  | "rmems" :: rid :: fz => do
+      -- `getMems()`; the optional flag says whether the real reader got a frozen buffer
+      let rid ← natOf rid
+      let pre := match fz with
+        | [f] => if decide (f = "1") == decide (st.σ.frozen ≠ none) then none
+                 else some s!"reader-frozen-buffer-{f}-model-{if st.σ.frozen ≠ none then 1 else 0}"
+        | _ => none
+      pure { pre := pre, acts := acts [.rMems rid], fail := "reader-buffers-not-enabled(no-sequence-number-or-twice-or-after-version)" }
+  | ["rver", rid] => do
+      let rid ← natOf rid
+      pure { acts := acts [.rVer rid], fail := "reader-version-not-enabled(before-the-buffers-or-twice)" }
+  | ["rrel", rid] => do
+      let rid ← natOf rid
+      pure { acts := acts [.rRelease rid], fail := "reader-release-not-enabled(before-buffers-and-version-are-pinned)" }
+  | ["rget", rid, key, ans, vid] => do
+      -- the answer of a completed read against the model's lookup at the reader's triple
+      let rid ← natOf rid; let k ← fromHex key
+      let val ← parseVal vid
+      pure { acts := acts [.rLookup rid k], fail := "lookup-not-enabled(reader-has-not-pinned-its-triple)",
+             post := fun st' =>
+               match st'.σ.readers[rid]? with
+               | some r =>
+                 match r.results.getLast? with
+                 | some kv => if answerOk ans val kv.2 = true then none
+                              else some s!"read-{key}-real-{ans}-{vid}-model-{showAns kv.2}"
+                 | none => some "no-result"
+               | none => some "no-reader" }
   | _ => none
+
+def handleConc (st : ConcState) : List String → Option (ConcState × String)
+  | ["reset", pub] => do
+      -- a DB opened with recovered sequence number `pub` and empty buffers
+      let p ← natOf pub
+      if p = 0 then pure ({}, "ok")
+      else match applyAct {} (.seqSkip p) with
+        | some st' => pure ({ st' with steps := 0 }, "ok")
+        | none => pure ({}, "illegal reset")
+  | ["pub?"] => pure (st, toString st.σ.pub)
+  | args => (plan st args).map (exec st)
 
 end GoLevel.Driver
